@@ -231,7 +231,7 @@ def gen_fn(fn, g, canary=False):
         if 'R3' not in fn.no_generic:
             text, lg = rules.r3_io_drop(text); log += lg
         if 'R4' not in fn.no_generic:
-            text, lg = rules.r4_format(text, fn.int_args); log += lg
+            text, lg = rules.r4_format(text, fn.int_args, fn.chars); log += lg
         if 'R12' not in fn.no_generic:
             text, lg = rules.r_method_shims(text, fn.chars, fn.clone_shims); log += lg
         if 'R5' not in fn.no_generic:
